@@ -79,17 +79,16 @@ def staleVariants (p : Sexp) : List (String × (Name → Option Int)) :=
 /-! ### C04 -/
 
 def c04Model (i : Input) (win : List Int) (stale : List (String × (Name → Option Int))) : List (String × String) :=
-  match gen i.T i.blocks with
+  match gen i.kind i.T i.blocks with
   | .skipped => [("exit", "0"), ("file", "none")]
-  | .formatError => [("exit", "1")]
   | .file cs =>
     if !compiles false i.T cs then [("exit", "0"), ("compile", "error")]
     else
       [("exit", "0"), ("compile", "ok"),
        ("values", commaInts (valuesT cs)), ("strings", commaNames (stringsT i.T cs)),
        ("vmap", showVMap (valueMap i.T cs)), ("smap", showSMap (stringMap i.T cs))]
-      ++ win.flatMap (fun x => [(s!"str:{x}", showStr (stringOf i.T cs x)), (s!"valid:{x}", toString (isValid i.T cs x))])
-      ++ stale.map (fun (l, cur) => (s!"stale:{l}", if guardOK cs cur then "accepted" else "rejected"))
+      ++ win.flatMap (fun x => [(s!"str:{x}", showStr (stringOf i.kind i.T cs x)), (s!"valid:{x}", toString (isValid i.T cs x))])
+      ++ stale.map (fun (l, cur) => (s!"stale:{l}", if guardOK i.kind cs cur then "accepted" else "rejected"))
 
 def c04Spec (i : Input) (win : List Int) (stale : List (String × (Name → Option Int))) : List (String × String) :=
   let d := i.decl
@@ -144,22 +143,21 @@ structure C12Probes where
   encs : List Int
 
 def c12Model (i : Input) (q : C12Probes) : List (String × String) :=
-  match gen i.T i.blocks with
+  match gen i.kind i.T i.blocks with
   | .skipped => [("exit", "0"), ("file", "none")]
-  | .formatError => [("exit", "1")]
   | .file cs =>
     if !compiles false i.T cs then [("exit", "0"), ("compile", "error")]
     else
       let vm := valueMap i.T cs
       let codec (on : Bool) (tag : String) (rt : Int → Dec) : List (String × String) :=
         if !on then [] else
-          q.encs.map (fun x => (s!"{tag}.enc:{x}", showStr (encode i.T cs x)))
+          q.encs.map (fun x => (s!"{tag}.enc:{x}", showStr (encode i.kind i.T cs x)))
           ++ (valuesT cs).map (fun x => (s!"{tag}.rt:{x}", showDec (rt x).obs))
       [("exit", "0"), ("compile", "ok"),
        ("has.json", toString q.json), ("has.text", toString q.text), ("has.sql", toString q.sql), ("has.gorm", toString q.gorm)]
-      ++ codec q.json "json" (fun x => unmarshalJSON vm (.str (encode i.T cs x).text) q.target)
-      ++ codec q.text "text" (fun x => unmarshalText vm (encode i.T cs x).text q.target)
-      ++ codec q.sql "sql" (fun x => scan vm (.bytes (encode i.T cs x).text) q.target)
+      ++ codec q.json "json" (fun x => unmarshalJSON vm (.str (encode i.kind i.T cs x).text) q.target)
+      ++ codec q.text "text" (fun x => unmarshalText vm (encode i.kind i.T cs x).text q.target)
+      ++ codec q.sql "sql" (fun x => scan vm (.bytes (encode i.kind i.T cs x).text) q.target)
       ++ (if q.json then (enumerate q.jsons).flatMap (fun (j, d) =>
             let r := unmarshalJSON vm d q.target
             [(s!"json.dec:{j}", showDec r.obs), (s!"json.cls:{j}", showCls r.1)]) else [])
@@ -217,7 +215,7 @@ def c12tCase (id : String) (payload : List Sexp) : List String :=
   | some i =>
     let ints := intsOf p "ints"
     let reg := if !WF i then "Out" else if F_isenum_trunc i.kind i.decl ints then "F_isenum_trunc" else "WF"
-    match gen i.T i.blocks with
+    match gen i.kind i.T i.blocks with
     | .file cs =>
       both id (ints.map (fun v => (s!"isenum:{v}", toString (isEnum i.kind (valuesT cs) v))))
         (ints.map (fun v => (s!"isenum:{v}", toString (specIsEnum i.decl v)))) reg
@@ -253,9 +251,8 @@ def c14Case (id : String) (payload : List Sexp) : List String :=
     let hi := ((intsOf p "hi").headD 0).toNat
     let negs := intsOf p "neg"
     let hd := [("exit", "0"), ("compile", "ok")]
-    match gen i.T i.blocks with
+    match gen i.kind i.T i.blocks with
     | .skipped => both id [("exit", "0"), ("file", "none")] hd (regionBit i)
-    | .formatError => both id [("exit", "1")] hd (regionBit i)
     | .file cs =>
       -- the copy under observation has the defined table substituted, so it compiles like a plain enum
       if !compiles false i.T cs then both id [("exit", "0"), ("compile", "error")] hd (regionBit i)
@@ -274,7 +271,7 @@ def c14rawCase (id : String) (payload : List Sexp) : List String :=
   | none => err id "bad-enum-case"
   | some i =>
     let reg := if !WF i then "Out" else if F_undefined_map true then "F_undefined_map" else "WF"
-    match gen i.T i.blocks with
+    match gen i.kind i.T i.blocks with
     | .file cs => both id [("compile", if compiles true i.T cs then "ok" else "error")] [("compile", "ok")] reg
     | _ => both id [] [] "Out"
 
@@ -298,9 +295,9 @@ def c01enumCase (id : String) (payload : List Sexp) : List String :=
   let mode := match p.field? "mode" with
     | some (.list [_, .atom m]) => m
     | _ => ""
-  let tys : List (Name × Bool × Bool) := ((p.field? "types").map (·.args)).getD [] |>.filterMap (fun t =>
+  let tys : List ((Name × Kind) × Bool × Bool) := ((p.field? "types").map (·.args)).getD [] |>.filterMap (fun t =>
     match t with
-    | .list (.atom n :: .atom k :: rest) => (kindOfName k).map (fun kk => (nm n, kk.2, rest == [.atom "sel"]))
+    | .list (.atom n :: .atom k :: rest) => (kindOfName k).map (fun kk => ((nm n, kk.1), kk.2, rest == [.atom "sel"]))
     | _ => none)
   match (p.field? "blocks").bind (fun b => b.args.mapM (fun bl => bl.args.mapM parseSpec)) with
   | none => err id "bad-enum-case"
